@@ -784,6 +784,11 @@ func (store *KeyStore) describeDir(dirName string) ([]keystore.KeyDescription, e
 		}
 
 		description, err := DescribeKeyFile(fileInfo.Name())
+		if err == ErrUnrecognizedKeyPurpose {
+			// not a key file, e.g. a temporary file left by an interrupted key write: it must not break the listing
+			log.WithField("file", fileInfo.Name()).Warn("Ignoring unrecognized file in key directory")
+			continue
+		}
 		if err != nil {
 			return nil, err
 		}
